@@ -377,7 +377,11 @@ func (x *Exec) navCall(s *State, in *ssa.Call, recv Val, args []Val, m string) V
 		}
 		return scalar(cp)
 	case "MoveToRoot":
-		setPos(tf("rootof", SPos, pos))
+		// from a tree node: the root of its document. From an attribute position the result is not
+		// specified: navigators in the wild (the test-suite's, xmlquery, htmlquery) keep the
+		// attribute index and end up on "an attribute of the root"
+		un := x.fresh(s, "root.from.attribute", SPos)
+		setPos(Ite(isAttr, un, tf("rootof", SPos, pos)))
 		return Val{K: vNone}
 	case "MoveToParent":
 		return mvResult(Not(tf("isroot", SBool, pos)), tf("parent", SPos, pos))
